@@ -149,6 +149,8 @@ type attemptResult struct {
 	calls    []vh.Val // (tx accepted)
 	outcome  string
 	panicked bool
+	// transactions whose content, re-read after parseEvents returned, differs from what was read at delivery
+	changed []string
 }
 
 // implAttempt runs the implementation's parseEvents on the attempt (through the verif hook).
@@ -183,13 +185,17 @@ func implAttempt(a attempt) (res attemptResult) {
 		}()
 	}
 	ncall := 0
+	var kept []*gobinlog.Transaction // a consumer may keep what it was handed (the package documents `Transactions <- tran`)
+	var keptAt []string
 	handler := func(t *gobinlog.Transaction) error {
 		ok := true
 		if ncall < len(a.verdicts) {
 			ok = a.verdicts[ncall]
 		}
 		ncall++
-		res.calls = append(res.calls, vh.L(txVal(t), vh.B(ok)))
+		tv := txVal(t)
+		kept, keptAt = append(kept, t), append(keptAt, tv.String())
+		res.calls = append(res.calls, vh.L(tv, vh.B(ok)))
 		if !ok {
 			if a.cancelInRefusal {
 				cancel()
@@ -213,6 +219,18 @@ func implAttempt(a attempt) (res attemptResult) {
 		res.stored = posVal(gobinlog.VerifStoredPosition(s))
 	}()
 	close(done)
+	for i, t := range kept {
+		func() {
+			defer func() {
+				if recover() != nil {
+					res.changed = append(res.changed, fmt.Sprintf("transaction %d cannot be read any more", i))
+				}
+			}()
+			if now := txVal(t).String(); now != keptAt[i] {
+				res.changed = append(res.changed, fmt.Sprintf("transaction %d: at delivery %.300s, after the stream %.300s", i, keptAt[i], now))
+			}
+		}()
+	}
 	return
 }
 
@@ -276,6 +294,9 @@ func compareAttempt(c *Ctx, prop, what string, a attempt, mapperVals []vh.Val, i
 	}
 	if ir.panicked {
 		return ir
+	}
+	if len(ir.changed) > 0 {
+		c.R.Add(vh.Mismatch{Kind: "spec", What: what + ": a delivered transaction changed after it was delivered", Case: desc, Input: eventsHex(a.events), Impl: strings.Join(ir.changed, " | "), InDomain: inDomain})
 	}
 	if ir.pos.String() != mpos.String() {
 		c.R.Add(vh.Mismatch{Kind: "corr", What: what + ": returned position differs from the model", Case: desc, Input: eventsHex(a.events), Model: mpos.String(), Impl: ir.pos.String(), InDomain: inDomain})
